@@ -1,3 +1,5 @@
+import copy
+
 from dataflows import PackageWrapper
 from dataflows.helpers.resource_matcher import ResourceMatcher
 
@@ -8,7 +10,7 @@ def update_resource(resources, **props):
         matcher = ResourceMatcher(resources, package.pkg)
         for resource in package.pkg.descriptor['resources']:
             if matcher.match(resource['name']):
-                resource.update(props)
+                resource.update(copy.deepcopy(props))
         yield package.pkg
 
         res_iter = iter(package)
